@@ -87,7 +87,7 @@ def floors(tier):
             'peek_token_does_not_move': 100000, 'next_token_advances': 100000,
             'rewind_checked': 100000, 'end_of_stream_reached': 20000,
             'char_level_calls_checked': 100000, 'resume_from_position_checked': 30000,
-            'token_list_reader_replays': 20000, 'end_of_stream_after_none_peek': 20000, 'rewind_without_pre_space_checked': 50000, 'histkeys:config': len(CONFIGS), 'hist:mode:tolerant': 10000, 'hist:mode:strict': 10000}
+            'token_list_reader_replays': 20000, 'strict_recovery_protocol_followed': 5000, 'end_of_stream_after_none_peek': 20000, 'rewind_without_pre_space_checked': 50000, 'histkeys:config': len(CONFIGS), 'hist:mode:tolerant': 10000, 'hist:mode:strict': 10000}
 
 
 def setup(rec):
@@ -114,6 +114,7 @@ def read_all(s, with_ctx, kw, tol, rec):
     kinds = set()
     toks = []
     reached_eos = False
+    recovered = False
     while True:
         p0 = tr.cur_pos()
         try:
@@ -135,7 +136,26 @@ def read_all(s, with_ctx, kw, tol, rec):
             if tol:
                 return 'token parse error escaped in tolerant mode at %r: %s' % (p0, e.msg)
             rec.monitor('strict_token_errors')
-            break
+            # the documented way to go on after a token error in strict reading: take the recovery token carried by
+            # the error and resume at the position it names (what the expression parser does); the reading then stays
+            # lossless and agrees with tolerant reading
+            rt, rp = getattr(e, 'recovery_token_placeholder', None), getattr(e, 'recovery_token_at_pos', None)
+            if rt is None or not isinstance(rp, int):
+                break
+            rec.monitor('strict_recovery_protocol_followed')
+            recovered = True
+            if rp != rt.pos_end:
+                return 'token error at %r names recovery position %r, its recovery token %r ends at %r' % (p0, rp, rt, rt.pos_end)
+            if not (p0 <= rt.pos <= rt.pos_end <= len(s)) or rp <= p0:
+                return 'token error at %r carries recovery token %r / position %r outside the remaining input' % (p0, rt, rp)
+            tr.move_to_pos_chars(rp)
+            out += rt.pre_space + s[rt.pos:rt.pos_end]
+            if out != s[:rp]:
+                return 'lossy: after the recovery token %r the tokens reproduce %r but the consumed input is %r' % (rt, out, s[:rp])
+            nreads += 1
+            if nreads > len(s):
+                return 'more than len(input)=%d successful reads' % len(s)
+            continue
         if tr.cur_pos() != p0:
             return 'peek_token() moved the reader %r -> %r (token %r)' % (p0, tr.cur_pos(), pk)
         tok = tr.next_token(ps)
@@ -172,6 +192,8 @@ def read_all(s, with_ctx, kw, tol, rec):
             return 're-read left the reader at %r instead of %r' % (tr.cur_pos(), p1)
     if nreads >= 2 and len(kinds) >= 2:
         rec.nontrivial((s, with_ctx, sorted(kw.items(), key=str), tol))
+    if recovered:
+        return None         # the second pass re-reads every position with plain calls, which raise again in strict reading
     return second_pass(s, ps, tol, toks, rec, reached_eos=reached_eos)
 
 
